@@ -77,13 +77,17 @@ theorem C20_gen_other_sorts :
 
 /-! ### Order independence -/
 
-/-- **Permutation invariance.**  The string that is hashed does not change when the
+/-- **Permutation invariance** (partial: the full statement - for every info whose
+identities are pairwise distinct in (category, type, lang), with no condition on forms and
+fields - is false of the code, `C20_perm_invariant_fails`; the three kinds of inputs that are
+inside the property's quantifier and outside `Info.WF` are `known:` findings).
+The string that is hashed does not change when the
 identities, the features, the forms, the fields inside any form and the values inside any
 field are rearranged in any way — for every info whose identities are pairwise distinct in
 (category, type, lang), whose forms are pairwise distinct in FORM_TYPE, whose fields are
 pairwise distinct in `var` within a form and whose FORM_TYPE fields carry at most one value
 (`Info.WF`: the inputs XEP-0115 §5.4 does not declare ill-formed). -/
-theorem C20_perm_invariant (i j : Info) (h : InfoEqv i j) (wf : i.WF) : verImpl i = verImpl j := by
+theorem C20_perm_invariant_partial (i j : Info) (h : InfoEqv i j) (wf : i.WF) : verImpl i = verImpl j := by
   obtain ⟨hids, hfeats, hforms⟩ := h
   obtain ⟨wids, wforms, wf'⟩ := wf
   unfold verImpl
@@ -149,7 +153,7 @@ theorem C20_equal_key_identities_keep_order (a b : Identity) (h : idKey a = idKe
   simp [verImpl, hs, sortStrings]
 
 /-- … hence the string depends on that order: a well-formed info (no two identities equal in
-all four fields) whose rearrangement hashes differently.  This is why `C20_perm_invariant`
+all four fields) whose rearrangement hashes differently.  This is why `C20_perm_invariant_partial`
 carries the hypothesis on identities (the property's quantifier has it too). -/
 theorem C20_equal_key_identities_order_dependent :
     ∃ a b : Identity, a ≠ b ∧ idKey a = idKey b ∧
@@ -158,6 +162,58 @@ theorem C20_equal_key_identities_order_dependent :
   rw [C20_equal_key_identities_keep_order ⟨[0x63], [0x74], [], [0x41]⟩ ⟨[0x63], [0x74], [], [0x42]⟩ rfl,
     C20_equal_key_identities_keep_order ⟨[0x63], [0x74], [], [0x42]⟩ ⟨[0x63], [0x74], [], [0x41]⟩ rfl]
   decide
+
+/-! ### What `Info.WF` excludes although the property's quantifier does not (round E, review C20-1/7)
+
+XEP-0115 5.4 declares ill-formed: two identities equal in all four attributes, two forms with
+the same `FORM_TYPE`, a `FORM_TYPE` with several different values.  It does *not* say so of
+forms that have no `FORM_TYPE` (3.6: such a form is ignored), nor of fields that share a `var`
+(two `fixed` fields without `var` are ordinary XEP-0004).  The code keeps the given order
+among such items (stable sorts), so the string depends on it. -/
+
+/-- two forms without `FORM_TYPE` are hashed in the order given -/
+theorem C20_forms_without_type_order_dependent :
+    ∃ F G : Form, F.formType = G.formType ∧
+      (∀ fd ∈ F.fields ++ G.fields, fd.var ≠ formTypeVar) ∧
+      verImpl ⟨[], [], [F, G]⟩ ≠ verImpl ⟨[], [], [G, F]⟩ := by
+  refine ⟨⟨[⟨[0x61], [[0x31]]⟩]⟩, ⟨[⟨[0x62], [[0x32]]⟩]⟩, by decide, by decide, ?_⟩
+  simp [verImpl, mergeSort_pair, formLe, Form.formType, formTypeVar, lexLe, renderForm,
+    Form.dataFields, renderField, sortStrings, renderFeat, lt]
+
+/-- an empty form next to a form without `FORM_TYPE`: same thing -/
+theorem C20_empty_form_order_dependent :
+    ∃ G : Form, verImpl ⟨[], [], [⟨[]⟩, G]⟩ ≠ verImpl ⟨[], [], [G, ⟨[]⟩]⟩ := by
+  refine ⟨⟨[⟨[0x61], [[0x31]]⟩]⟩, ?_⟩
+  simp [verImpl, mergeSort_pair, formLe, Form.formType, formTypeVar, lexLe, renderForm,
+    Form.dataFields, renderField, sortStrings, renderFeat, lt]
+
+/-- two fields with the same `var` (in particular two `fixed` fields without `var`) inside a
+form with a proper `FORM_TYPE` are hashed in the order given -/
+theorem C20_equal_var_fields_order_dependent :
+    ∃ f g : Field, f.var = g.var ∧ f.var ≠ formTypeVar ∧
+      verImpl ⟨[], [], [⟨[⟨formTypeVar, [[0x74]]⟩, f, g]⟩]⟩ ≠
+      verImpl ⟨[], [], [⟨[⟨formTypeVar, [[0x74]]⟩, g, f]⟩]⟩ := by
+  refine ⟨⟨[], [[0x78]]⟩, ⟨[], [[0x79]]⟩, rfl, by decide, ?_⟩
+  simp [verImpl, mergeSort_pair, fieldLe, Form.formType, formTypeVar, lexLe, renderForm,
+    Form.dataFields, renderField, sortStrings, renderFeat, lt]
+
+theorem all₂_refl {α} {R : α → α → Prop} (h : ∀ a, R a a) : ∀ l : List α, All₂ R l l
+  | [] => .nil
+  | a :: l => .cons (h a) (all₂_refl h l)
+
+theorem formEqv_refl (F : Form) : FormEqv F F :=
+  ⟨F.fields, .refl _, all₂_refl (fun _ => ⟨rfl, .refl _⟩) _⟩
+
+/-- **Negation witness of the full-strength clause**: "the verification string depends only on
+the sets, not on the order" with the property's own side condition (identities distinct in
+category/type/language) and nothing else is false of the code. -/
+theorem C20_perm_invariant_fails :
+    ¬ ∀ i j : Info, InfoEqv i j → i.ids.Pairwise (fun a b => idKey a ≠ idKey b) →
+      verImpl i = verImpl j := by
+  intro h
+  obtain ⟨F, G, _, _, hne⟩ := C20_forms_without_type_order_dependent
+  exact hne (h ⟨[], [], [F, G]⟩ ⟨[], [], [G, F]⟩
+    ⟨.refl _, .refl _, [G, F], List.Perm.swap _ _ _, all₂_refl formEqv_refl _⟩ .nil)
 
 /-! ### Agreement with XEP-0115 §5.1 -/
 
@@ -216,7 +272,7 @@ theorem C20_hash_append (hash b64 : Bytes → Bytes) (i : Info) :
 entry point, for every hash function -/
 theorem C20_hash_perm_invariant (hash b64 : Bytes → Bytes) (i j : Info) (h : InfoEqv i j)
     (wf : i.WF) : hashStr hash b64 i = hashStr hash b64 j := by
-  simp [hashStr, appendHash, C20_perm_invariant i j h wf]
+  simp [hashStr, appendHash, C20_perm_invariant_partial i j h wf]
 
 /-! ### Totality: the shapes that used to panic or have no FORM_TYPE -/
 
@@ -273,5 +329,137 @@ theorem C20_length_order_independent (a b : Info) (h1 : a.ids.Perm b.ids) (h2 : 
 
 example : (verImpl ⟨[⟨[1], [2], [], [3, 4]⟩], [[5, 6]], [⟨[⟨formTypeVar, [[7]]⟩, ⟨[8], [[9], []]⟩]⟩, ⟨[]⟩]⟩).length = 19 := by
   rw [C20_length]; decide
+
+/-! ### Calls on a value the caller keeps (round E)
+
+"Depends only on the sets": a call must not change what the caller (and every later or
+concurrent call) sees.  `Info.after p` is the caller's value after a call of an implementation
+that orders the levels named by `p` in place. -/
+
+theorem C20_field_after_pure (f : Field) : f.after InPlace.pure = f := by
+  simp [Field.after, InPlace.pure]
+
+theorem C20_form_after_pure (F : Form) : F.after InPlace.pure = F := by
+  have : (fun f : Field => f.after InPlace.pure) = id := funext C20_field_after_pure
+  cases F; simp [Form.after, this]; simp [InPlace.pure]
+
+/-- an implementation that copies every level leaves the caller's value as it was -/
+theorem C20_after_pure (i : Info) : i.after InPlace.pure = i := by
+  have : (fun F : Form => F.after InPlace.pure) = id := funext C20_form_after_pure
+  cases i; simp [Info.after, this]; simp [InPlace.pure]
+
+/-- **The code is a pure function of the value**: any number of successive calls on one value
+hash the same string and leave the value as it was (the fact `argumentWrites`, probed on the
+real code, says that `implInPlace` is what the code does). -/
+theorem C20_calls_pure (n : Nat) (i : Info) :
+    calls implInPlace n i = List.replicate n (verImpl i) ∧ afterCalls implInPlace n i = i := by
+  induction n with
+  | zero => simp [calls, afterCalls]
+  | succ n ih =>
+    simp only [calls, afterCalls, implInPlace, C20_after_pure, List.replicate_succ]
+    exact ⟨by rw [← implInPlace, ih.1], by rw [← implInPlace, ih.2]⟩
+
+theorem mergeSort_idem {α} {le : α → α → Bool}
+    (trans : ∀ a b c, le a b = true → le b c = true → le a c = true)
+    (total : ∀ a b, (le a b || le b a) = true) (l : List α) :
+    (l.mergeSort le).mergeSort le = l.mergeSort le :=
+  List.mergeSort_of_pairwise (List.pairwise_mergeSort trans total l)
+
+/-- Ordering the identities, the features or the list of forms where they are does not change
+what a later call hashes (it is still visible to the caller and a data race between concurrent
+calls, which is why the fact demands that it does not happen) … -/
+theorem C20_inplace_top_levels_harmless (p : InPlace) (hf : p.fields = false)
+    (hv : p.values = false) (i : Info) : verImpl (i.after p) = verImpl i := by
+  have hfield : (fun f : Field => f.after p) = id := by
+    funext f; simp [Field.after, hv]
+  have hform : (fun F : Form => F.after p) = id := by
+    funext F; cases F; simp [Form.after, hf, hfield]
+  cases i with
+  | mk ids feats forms =>
+    simp only [Info.after, hform, List.map_id, verImpl, sortStrings]
+    congr 1
+    · congr 1
+      · cases p.ids <;> simp [mergeSort_idem idLe_trans idLe_total]
+      · cases p.feats <;> simp [mergeSort_idem lexLe_trans lexLe_total]
+    · cases p.forms <;> simp [mergeSort_idem formLe_trans formLe_total]
+
+theorem C20_inplace_top_levels_calls (p : InPlace) (hf : p.fields = false) (hv : p.values = false)
+    (n : Nat) (i : Info) : calls p n i = List.replicate n (verImpl i) := by
+  induction n generalizing i with
+  | zero => simp [calls]
+  | succ n ih => simp [calls, ih, C20_inplace_top_levels_harmless p hf hv, List.replicate_succ]
+
+/-- … but ordering the *values* of the fields where they are does: the first value of a
+`FORM_TYPE` field is the form's type.  A form whose `FORM_TYPE` carries `b, a` is hashed as
+`b<` by the first call and as `a<` by every later one (the class of the seeded change
+"sort.Strings(f.Raw) inside ForFields"). -/
+theorem C20_inplace_values_breaks_repeat :
+    ∃ i : Info, verImpl (i.after ⟨false, false, false, false, true⟩) ≠ verImpl i := by
+  refine ⟨⟨[], [], [⟨[⟨formTypeVar, [[0x62], [0x61]]⟩]⟩]⟩, ?_⟩
+  simp [Info.after, Form.after, Field.after, sortStrings, mergeSort_pair, verImpl, renderForm,
+    Form.formType, Form.dataFields, formTypeVar, lexLe, lt]
+
+/-- each probe value of `writeProbes` is changed by an in-place sort of its level -/
+theorem C20_write_probes_discriminate :
+    writeTable ⟨true, false, false, false, false⟩ = [true, false, false, false, false, false] ∧
+    writeTable ⟨false, true, false, false, false⟩ = [false, true, false, false, false, false] ∧
+    writeTable ⟨false, false, true, false, false⟩ = [false, false, true, false, false, false] ∧
+    writeTable ⟨false, false, false, true, false⟩ = [false, false, false, true, false, false] ∧
+    writeTable ⟨false, false, false, false, true⟩ = [false, false, false, false, true, true] := by
+  simp [writeTable, writeProbes, Info.after, Form.after, Field.after, sortStrings, mergeSort_pair,
+    idLe, idKey, identityKeys, IdSel.get, keysLe, formLe, fieldLe, Form.formType, formTypeVar, lexLe]
+
+theorem C20_write_table_impl : writeTable implInPlace = [false, false, false, false, false, false] := by
+  simp [writeTable, implInPlace, C20_after_pure, writeProbes]
+
+/-- regenerated fact (probe): the real `Hash`, run on the six values of `writeProbes`, leaves
+every one of them as it was - the code orders no level of the caller's value in place -/
+theorem C20_gen_argument_untouched :
+    Generated.C20.argumentWrites = some (writeTable implInPlace) := by
+  rw [C20_write_table_impl]; decide
+
+/-! ### The shared vocabulary of `Spec` and `verImpl` against the XEP's wording (review C20-3) -/
+
+/-- the rendering of an identity is XEP-0115 5.1 step 2 written out as an intercalation -/
+theorem C20_identity_is_xep (i : Identity) : renderId i = xepIdentity i := by
+  simp [renderId, xepIdentity, List.intersperse]
+
+/-- where the XEP defines the `FORM_TYPE` of a form (exactly one field of that name with exactly
+one value) the code's `formType` is that value, and the field is not hashed as data -/
+theorem C20_formType_is_xep (F : Form) (t : Bytes) (h : F.xepType = some t) :
+    F.formType = t ∧ ∀ fd ∈ F.dataFields, fd.var ≠ formTypeVar := by
+  refine ⟨?_, ?_⟩
+  · unfold Form.xepType at h
+    split at h
+    · rename_i fd hf
+      split at h
+      · rename_i v hv
+        simp only [Option.some.injEq] at h
+        subst h
+        have hmem : fd ∈ F.fields.filter (fun fd => fd.var == formTypeVar) := by rw [hf]; simp
+        unfold Form.formType
+        have hfind : F.fields.find? (fun fd => fd.var == formTypeVar) = some fd := by
+          have := List.head?_filter (p := fun fd : Field => fd.var == formTypeVar) (l := F.fields)
+          rw [hf] at this
+          simpa using this.symm
+        rw [hfind]
+        simp only [hv]
+      · simp at h
+    · simp at h
+  · intro fd hfd
+    unfold Form.dataFields at hfd
+    simp only [List.mem_filter, bne_iff_ne, ne_eq] at hfd
+    exact hfd.2
+
+/-- the three decisions that are NOT in the XEP, as values of the model (the code's behaviour
+where `xepType` is undefined): no FORM_TYPE → the empty type and the fields are hashed; a
+FORM_TYPE with two values → the first; two FORM_TYPE fields → the first, the second dropped -/
+theorem C20_beyond_xep :
+    (⟨[⟨[0x61], [[0x31]]⟩]⟩ : Form).xepType = none ∧ renderForm ⟨[⟨[0x61], [[0x31]]⟩]⟩ = [0x3c, 0x61, 0x3c, 0x31, 0x3c] ∧
+    (⟨[⟨formTypeVar, [[0x75], [0x74]]⟩]⟩ : Form).xepType = none ∧ (⟨[⟨formTypeVar, [[0x75], [0x74]]⟩]⟩ : Form).formType = [0x75] ∧
+    (⟨[⟨formTypeVar, [[0x74]]⟩, ⟨formTypeVar, [[0x75]]⟩]⟩ : Form).xepType = none ∧
+      renderForm ⟨[⟨formTypeVar, [[0x74]]⟩, ⟨formTypeVar, [[0x75]]⟩]⟩ = [0x74, 0x3c] := by
+  simp [Form.xepType, renderForm, Form.formType, Form.dataFields, formTypeVar, renderField, sortStrings,
+    renderFeat, lt]
 
 end XmppModel.Props.C20
